@@ -135,14 +135,14 @@ public:
     }
     else
     {
-      reserve(size);
+      const T* src = reserve(size, &value);
       T* end = _begin.item + size;
       for (T* i = _begin.item + _size; i != end; ++i)
       {
 #ifdef VERIFY
-        VERIFY(new(i)T(value) == i);
+        VERIFY(new(i)T(*src) == i);
 #else
-        new(i)T(value);
+        new(i)T(*src);
 #endif
       }
       _end.item = end;
@@ -179,12 +179,12 @@ public:
   T& append(const T& value)
   {
     usize size = _end.item - _begin.item;
-    reserve(size + 1);
+    const T* src = reserve(size + 1, &value);
     T* item = _end.item;
 #ifdef VERIFY
-    VERIFY(new(item) T(value) == item);
+    VERIFY(new(item) T(*src) == item);
 #else
-    new(item) T(value);
+    new(item) T(*src);
 #endif
     ++_end.item;
     return *item;
@@ -210,7 +210,7 @@ public:
   void append(const T* values, usize size)
   {
     usize oldSize = _end.item - _begin.item;
-    reserve(oldSize + size);
+    values = reserve(oldSize + size, values);
     T* item = _end.item;
     for(T* end = item + size; item < end; ++item, ++values)
     {
@@ -262,5 +262,20 @@ private:
   Iterator _begin;
   Iterator _end;
   usize _capacity;
+
+  /**
+  * Reserve storage like reserve(usize), following a pointer to an element of this array into the new storage.
+  */
+  const T* reserve(usize size, const T* ref)
+  {
+    if(ref >= _begin.item && ref < _end.item)
+    {
+      usize index = ref - _begin.item;
+      reserve(size);
+      return _begin.item + index;
+    }
+    reserve(size);
+    return ref;
+  }
 };
 
